@@ -131,11 +131,39 @@ def check_c01(ck, tier, replay=None):
             for k in range(3): uniq.setdefault((k, o1[1 + k].sexpr() if z3.is_expr(o1[1 + k]) else str(o1[1 + k])), (k, o1[1 + k]))
         q = [(wsum1 + [x >= 0 for x in w] + hull, [z3.Or(e < lo[k], e > hi[k])]) for (k, e) in uniq.values()]
         agg(ck, 'n=%d open box: for non-negative normalised weights the mapped position lies in the bounding box (convex hull, per axis) of the parents' % n, q, TO, found, 'n=%d convexity' % n)
+    # ---- TopologyMap::Apply: the CG topology takes step, time and the complete box (matrix and kind) of the current atomistic frame,
+    #      whatever box it carried from the previous frame, before the bead maps run
+    ob = [z3.Real('ob%d' % i) for i in range(9)]; nb = [z3.Real('nb%d' % i) for i in range(9)]; tm_ = z3.Real('time')
+    def tbody(it):
+        po = alloc_doubles(it, 'old', ob); pn = alloc_doubles(it, 'new', nb); out = alloc_doubles(it, 'out', [F(0)] * 13)
+        it.call('@h_topmap', [po, pn, F(7), tm_, out]); return read_doubles(it, out, 13)
+    rt, stt = explore(mod, map_models(), tbody, parsed=parsed, max_paths=20000); ck.stubs |= stt['models_used']
+    ck.add_witness('TopologyMap::Apply: %d paths (old/new box kinds)' % len(rt), len(rt) >= 9)
+    q = [(list(it.pc), [z3.Or([o[i] != nb[i] for i in range(9)] + [o[9] != o[10], o[11] != 7, o[12] != tm_])]) for it, o in rt]
+    agg(ck, 'TopologyMap::Apply: after Apply the CG topology has exactly the box matrix, box kind, step and time of the atomistic frame, for every previous CG box', q, TO, found, 'topologymap box')
+    c02_inside(ck, tier, found)
     ck.bounds.update({'parents': 'n = 1..%d' % NMAX, 'weights/masses/coordinates': 'all reals', 'boxes': 'open (real routine); orthorhombic and triclinic class instances with the box routines by contract (any box)', 'flag combinations': 'all 8 for the open box; (pos), (pos,vel,F), (vel,F) for periodic boxes in the quick tier'})
     for tag, name, mdl in found:
         meta = {'clause': name, 'tag': tag, 'model': mdl}
         rep = common.write_replay('C01', name, {}, meta); ok, why = replay_native(meta)
         ck.violation('C01 ' + tag, name + ' ; ' + why, rep, reproduced=ok)
+
+def c02_inside(ck, tier, found):
+    """the box routines Apply relies on: the C02 obligations are re-established here on the current tree, so that a change to the
+    box classes that breaks the mapping's image handling is reported under this property as well"""
+    import C02
+    sub = common.Check('C02', tier)
+    try:
+        C02.check_c02(sub, tier)
+    except Exception as e:
+        ck.inconc('box-routine obligations (C02) could not be established: %s' % str(e)[:200]); return
+    for o in sub.obl:
+        o2 = dict(o); o2['name'] = 'box routines used by Apply: ' + o['name']; ck.obl.append(o2)
+    ck.solver_time += sub.solver_time
+    for w in sub.witness: ck.witness.append(('box routines: ' + w[0], w[1]))
+    for v in sub.viol:
+        if v['reproduced']: found.append(('box routine ' + v['key'][4:], 'the periodic box routine used for unwrapping violates: ' + v['what'][:300], {}))
+    for i in sub.inconclusive: ck.inconc('box routines: ' + i)
 
 def half_box_sq(bname, L, tb):
     """h_min^2 as a symbol with defining constraints (min over the three heights)"""
